@@ -150,12 +150,28 @@ class Table:
                 self._synthetic.append(synth)
                 block([synth] + rest, env, conds, cont)
                 return
+            if isinstance(s, ast.Return) and isinstance(s.value, ast.BoolOp) and len(s.value.values) >= 2 and isinstance(s.value.values[-1], ast.Call):
+                # `return A and helper()` with a multi-return helper: the same decision as `if A: return helper()` /
+                # `return False` (`A or helper()`: `if A: return True` / `return helper()`) - results are judged by their truth
+                last_ = ast.Return(value=s.value.values[-1], lineno=s.lineno, col_offset=s.col_offset)
+                if self._inline_return(last_, fi, env, conds, depth) is not None:
+                    head_ = s.value.values[0] if len(s.value.values) == 2 else ast.BoolOp(op=s.value.op, values=list(s.value.values[:-1]))
+                    is_and = isinstance(s.value.op, ast.And)
+                    const_ = ast.Return(value=ast.Constant(value=not is_and), lineno=s.lineno, col_offset=s.col_offset)
+                    synth = ast.If(test=head_, body=[last_ if is_and else const_], orelse=[const_ if is_and else last_],
+                                   lineno=s.lineno, col_offset=s.col_offset)
+                    self._synthetic.append(synth)
+                    block([synth] + rest, env, conds, cont)
+                    return
             if isinstance(s, ast.Return):
                 inl = self._inline_return(s, fi, env, conds, depth)
                 if inl is not None:
                     rows.extend(inl)
                     return
                 val = self.canon(s.value, fi, env) if s.value is not None else ast.Constant(None)
+                fv_ = s.value.func.value if isinstance(s.value, ast.Call) and isinstance(s.value.func, ast.Attribute) else None
+                if isinstance(fv_, ast.Call) and isinstance(fv_.func, ast.Name) and fv_.func.id == "super":
+                    val = s.value      # delegation to the base implementation is kept as such, however short the base is
                 # `return A if c else B` is the same decision as `if c: return A` / `return B`
                 stack = [(list(conds), val)]
                 while stack:
@@ -697,7 +713,25 @@ def compare(table: Table, ref_vars: Vars, ref: Callable[[World], object], limit=
     """Evaluate function table and reference in every abstract world; return (n_worlds, mismatches)."""
     n = 0
     bad = []
+    # a truth term of the reference that the function does not test as one atom but spells out as a formula over other
+    # atoms (a single-expression callee was expanded in place) is not an axis of its own: its value in a world is the
+    # value of that formula there
+    derived = {}
+    for k in ref_vars.truths:
+        if k in table.vars.truths or k in table.vars.enums or k in table.vars.nums:
+            continue
+        for r in table.rows:
+            for c in [c_ for c_, _ in r.conds] + ([r.result] if isinstance(r.result, ast.AST) else []):
+                for nd in ast.walk(c):
+                    if isinstance(nd, (ast.BoolOp, ast.Compare)) and k not in derived and norm(nd) == k:
+                        derived[k] = nd
+    if derived:
+        rv2 = Vars().merged(ref_vars)
+        rv2.truths = [k for k in rv2.truths if k not in derived]
+        ref_vars = rv2
     for w in table.worlds(ref_vars):
+        for k, nd in derived.items():
+            w.truth[k] = bool(table.truth(table.ev(nd, w), w))
         n += 1
         got = table.outcome(w)
         want = ref(w)
